@@ -256,11 +256,17 @@ PROPS = {
                  "a job still queued is proved to be a stuck state (what `executed == nth` rules out); TERMINATION - every step after collection began strictly decreases 2*queued + running + phase rank, for "
                  "every interleaving of thieves; when collection returns every job has finished (no candidate lost, nothing left in the pool). Real runs (pool sizes 1..16, 1..64 concurrent images, calls "
                  "from a pool worker / nested par_iter / plain threads on the global pool / a plain thread, injected delays at the schedule points) are logged through the taps and every evaluator's event "
-                 "sequence must be an execution of the model ending in `returned`; a watchdog turns 90 s without progress into a failing history; the pool is reused after every case.",
-        "note": "Partial: one evaluator at a time; the composition of many nested evaluators on shared worker stacks (the timestamp argument sketched in DESIGN.md), rayon's sleep/wake protocol, OS scheduling and "
-                "the CPU burn of the spin loop are not in the theorems (R1); they are exercised by the pool-shape runs.",
+                 "sequence must be an execution of the model ending in `returned`, and the whole log must be an execution of the nested fork-join system with nothing left unfinished; a third of the cases run "
+                 "against an expiring deadline; a watchdog turns 90 s without progress into a failing history; the pool is reused after every case.",
+        "note": "NESTED COMPOSITION proved (OxiModel/Nested.lean + NestedProofs.lean): for ANY forest of image tasks (collectors: run their own queue only while waiting), evaluation jobs (forkers: may steal "
+                "while waiting) and pure trials, any number of workers and any distribution / stealing pattern, with waiting jobs stacked on the workers - nested_progress (some step is always enabled while a "
+                "job is unfinished; found on the job that started last, by eight invariants incl. 'a started child is younger than its parent' and 'a queued child sits in its parent's worker's queue'), "
+                "nested_progress_without_stealing (hence a pool of one thread cannot deadlock, nested calls included), nested_termination (measure < 3 x jobs). Every real run's WHOLE event log (all "
+                "evaluators, jobs and trials with their threads) is replayed as one execution of that system: stack discipline per thread, no stealing by a collector, nothing finishes before its children. "
+                "Still assumed (R1): rayon's sleep/wake protocol and deque implementation, OS scheduling fairness, callers that are not pool workers rely on idle workers taking injected jobs; the CPU "
+                "burn of the spin loop is not a subject of the theorems.",
         "technique": "Lean 4 proof (progress + variant over a transition system, all interleavings) + event-log replay under many pool shapes with a watchdog",
-        "partial_note": "nested-evaluator composition and rayon internals are assumed (R1) and exercised, not proved",
+        "partial_note": "rayon internals, OS fairness and non-pool callers are assumed (R1) and exercised, not proved",
         "rule": "pool size in {1,1,2,3,4,8,16} x images in {1,2,3,5,8,17,64} x call site in {pool worker, nested par_iter, plain threads on the global pool, plain thread} x delay in {0,100,800}us; "
                 "one log per evaluator instance; distinct = distinct logs",
     },
